@@ -352,8 +352,8 @@ Section Access.
         rewrite (IH _ _ Hch (acc ++ [b]) (length (sub b (firstn x cs)))).
         + rewrite (nth_sub b cs x d' Hx En ltac:(discriminate)). now rewrite <- app_assoc.
         + rewrite <- (firstn_skipn x cs) at 2. rewrite sub_app, app_length.
-          rewrite (skipn_cons_nth_code cs x Hx), En, sub_cons. cbn [continues_with]. rewrite Bool.eqb_reflx.
-          cbn [app length]. lia. }
+          rewrite (skipn_cons_nth_code cs x Hx), En, sub_cons. unfold d'. cbn [continues_with]. rewrite Bool.eqb_reflx.
+          rewrite app_length. cbn [length]. lia. }
     pose proof (this_rank_is_countv b cs x ltac:(lia)) as Et.
     destruct b; cbn [child_of] in G; rewrite <- Et in G; exact G.
   Qed.
@@ -438,3 +438,174 @@ Proof.
   destruct (Hchild false) as (l & El). destruct (Hchild true) as (r & Er).
   rewrite El, Er. cbn [rbind]. eauto.
 Qed.
+
+(* ------------------------------------------------------------------ against the plain symbol list *)
+From Blue Require Import Scrunch.Model Scrunch.ModelWT Scrunch.ProofsSorted Scrunch.ProofsSuffix
+  Scrunch.ProofsIAP Scrunch.ProofsSearch Scrunch.ProofsSigma Scrunch.ProofsWT1.
+Local Open Scope nat_scope.
+
+Lemma filter_length_count1 {A} (f : A -> bool) l : length (filter f l) = count1 (map f l).
+Proof. induction l as [|a l IH]; [reflexivity|]. cbn [filter map count1]. destruct (f a); cbn [length]; lia. Qed.
+
+Section AgainstList.
+  Variables (enc : nat -> option (list bool)) (dec : list bool -> option nat) (cf : nat -> list bool).
+  Variable text : list nat.
+  (* the encoder knows every symbol of the text and decodes its own code words *)
+  Hypothesis Henc : forall s, In s text -> enc s = Some (cf s) /\ dec (cf s) = Some s.
+
+  Lemma encode_all_ok fuel : pt_build enc fuel text = pt_construct fuel (map cf text).
+  Proof.
+    unfold pt_build.
+    assert (G : forall l, (forall s, In s l -> In s text) ->
+      (fix encode_all (l : list nat) : res (list (list bool)) :=
+         match l with
+         | [] => Ok []
+         | s :: r => do c <- ok_or (enc s); do cs <- encode_all r; Ok (c :: cs)
+         end) l = Ok (map cf l)).
+    { induction l as [|s l IH]; intros H; [reflexivity|].
+      rewrite (proj1 (Henc s (H s (or_introl eq_refl)))). cbn [ok_or rbind map].
+      rewrite IH by (intros s' Hs'; apply H; now right). reflexivity. }
+    rewrite G by auto. reflexivity.
+  Qed.
+
+  Lemma cf_inj q s : In q text -> In s text -> cf q = cf s -> q = s.
+  Proof.
+    intros Hq Hs E. destruct (Henc q Hq) as [_ A]. destruct (Henc s Hs) as [_ B]. rewrite E in A. congruence.
+  Qed.
+
+  Lemma map_ceqb_cf q : In q text -> forall l, (forall s, In s l -> In s text) ->
+    map (ceqb (cf q)) (map cf l) = symbits q l.
+  Proof.
+    intros Hq l Hl. unfold symbits. rewrite map_map. apply map_ext_in. intros s Hs.
+    destruct (Nat.eqb_spec s q) as [->|NE]; [apply ceqb_refl|].
+    destruct (ceqb (cf q) (cf s)) eqn:E; [|reflexivity]. apply ceqb_spec in E.
+    exfalso. apply NE. symmetry. apply cf_inj; auto.
+  Qed.
+
+  Theorem prefix_wt_correct fuel t : pt_build enc fuel text = Ok t ->
+    (forall x, x < length text -> pt_access dec t x = wt_access text x) /\
+    (forall q, In q text -> forall x, x <= length text -> pt_rank_q enc t q x = wt_rank_q text q x) /\
+    (forall q, In q text -> forall k, pt_select_q enc t q k = wt_select_q text q k).
+  Proof.
+    rewrite encode_all_ok. intros Hc.
+    destruct (construct_inv _ _ _ Hc) as (f & l & r & Ef & Et & _).
+    split; [|split].
+    - intros x Hx. unfold pt_access. rewrite (pt_access_correct dec _ _ _ Hc [] x) by (rewrite map_length; exact Hx).
+      cbn [app]. unfold wt_access. rewrite (nth_error_nth' text 0 Hx).
+      rewrite (nth_indep _ [] (cf 0)) by (rewrite map_length; exact Hx). rewrite (map_nth cf).
+      apply (Henc (nth x text 0)). now apply nth_In.
+    - intros q Hq x Hx. unfold pt_rank_q. rewrite Et, (proj1 (Henc q Hq)). rewrite <- Et.
+      rewrite (pt_rank_correct _ _ _ Hc (cf q) (in_map cf text q Hq) x) by (rewrite map_length; exact Hx).
+      unfold wt_rank_q. destruct (Nat.leb_spec x (length text)); [|lia]. f_equal.
+      unfold count_code. rewrite firstn_map, filter_length_count1.
+      rewrite map_ceqb_cf by (auto; intros s Hs; eapply In_firstn_aux; eauto).
+      now rewrite count_eq_count1.
+    - intros q Hq k. unfold pt_select_q. rewrite Et, (proj1 (Henc q Hq)). rewrite <- Et.
+      rewrite (pt_select_correct _ _ _ Hc (cf q) (in_map cf text q Hq) k).
+      rewrite map_ceqb_cf by auto. unfold wt_select_q. now rewrite wt_select_from_bits.
+  Qed.
+
+  Theorem prefix_wt_constructs fuel : (forall s, In s text -> cf s <> []) ->
+    prefix_free (map cf text) -> max_len (map cf text) < fuel ->
+    exists t, pt_build enc fuel text = Ok t.
+  Proof.
+    intros Hne Hpf Hf. rewrite encode_all_ok. apply pt_construct_total; [|exact Hpf|exact Hf].
+    intros c Hc. apply in_map_iff in Hc. destruct Hc as (s & <- & Hs). now apply Hne.
+  Qed.
+End AgainstList.
+
+(* ------------------------------------------------------------------ FixedWidthEncoder *)
+Lemma of_to_bits w : forall p, p < 2 ^ w -> of_bits (to_bits w p) = p.
+Proof.
+  induction w as [|w IH]; intros p Hp; [cbn in *; lia|].
+  cbn [to_bits of_bits]. rewrite IH.
+  - pose proof (Nat.div2_odd p) as E. destruct (Nat.odd p); cbn [Nat.b2n] in E; lia.
+  - rewrite Nat.div2_div. apply Nat.div_lt_upper_bound; [lia|]. rewrite Nat.pow_succ_r' in Hp. lia.
+Qed.
+
+Lemma to_bits_length w p : length (to_bits w p) = w.
+Proof. revert p. induction w as [|w IH]; intros p; [reflexivity|]. cbn [to_bits length]. now rewrite IH. Qed.
+
+Lemma is_prefix_same_length a : forall b, length a = length b -> is_prefix a b = true -> a = b.
+Proof.
+  induction a as [|x a IH]; intros [|y b] Hl Hp; cbn in *; try lia; [reflexivity|].
+  apply andb_prop in Hp. destruct Hp as [E Hp]. apply Bool.eqb_prop in E. subst. f_equal. apply IH; [lia|exact Hp].
+Qed.
+
+Lemma position_of_spec t l : forall i,
+  match position_of t l i with
+  | Some p => i <= p /\ p - i < length l /\ nth (p - i) l 0 = t
+  | None => ~ In t l
+  end.
+Proof.
+  induction l as [|y l IH]; intros i; cbn [position_of]; [intros []|].
+  destruct (Nat.eqb_spec t y) as [->|NE].
+  - rewrite Nat.sub_diag. cbn. repeat split; lia.
+  - specialize (IH (S i)). destruct (position_of t l (S i)) as [p|].
+    + destruct IH as (A & B & C). cbn [length]. repeat split; try lia.
+      replace (p - i) with (S (p - S i)) by lia. exact C.
+    + intros [E|H]; [congruence|contradiction].
+Qed.
+
+Lemma insert_uniq_In x l y : In y (insert_uniq x l) <-> y = x \/ In y l.
+Proof.
+  induction l as [|z l IH]; cbn [insert_uniq In]; [intuition|].
+  destruct (Nat.ltb_spec x z); [cbn [In]; intuition|].
+  destruct (Nat.eqb_spec x z) as [->|]; cbn [In]; [intuition|]. rewrite IH. intuition.
+Qed.
+
+Lemma fw_chars_In text s : In s (fw_chars text) <-> In s text.
+Proof.
+  unfold fw_chars. induction text as [|x text IH]; cbn [fold_right In]; [tauto|].
+  rewrite insert_uniq_In, IH. intuition.
+Qed.
+
+Section FixedWidth.
+  Variable text : list nat.
+  Let chars := fw_chars text.
+  Let w := fw_width chars.
+  Definition fw_cf (s : nat) : list bool :=
+    match position_of s chars 0 with Some p => to_bits w p | None => [] end.
+
+  Lemma fw_width_bound : length chars <= 2 ^ w.
+  Proof.
+    unfold w, fw_width. pose proof (Nat.log2_up_spec (Nat.max (length chars) 2) ltac:(lia)) as H. lia.
+  Qed.
+
+  Lemma fw_width_pos : 1 <= w.
+  Proof. unfold w, fw_width. apply (Nat.log2_up_le_mono 2 (Nat.max (length chars) 2)). lia. Qed.
+
+  Lemma fw_Henc s : In s text -> fw_enc chars s = Some (fw_cf s) /\ fw_dec chars (fw_cf s) = Some s.
+  Proof.
+    intros Hs. apply fw_chars_In in Hs. fold chars in Hs. unfold fw_enc, fw_cf, fw_dec. fold w.
+    pose proof (position_of_spec s chars 0) as P. destruct (position_of s chars 0) as [p|]; [|contradiction].
+    destruct P as (_ & B & C). rewrite Nat.sub_0_r in B, C. split; [reflexivity|].
+    rewrite of_to_bits by (pose proof fw_width_bound; lia). rewrite (nth_error_nth' chars 0 B). now rewrite C.
+  Qed.
+
+  Lemma fw_cf_length s : In s text -> length (fw_cf s) = w.
+  Proof.
+    intros Hs. apply fw_chars_In in Hs. fold chars in Hs. unfold fw_cf.
+    pose proof (position_of_spec s chars 0) as P. destruct (position_of s chars 0); [apply to_bits_length|contradiction].
+  Qed.
+
+  (* prefix::WaveletTree<FixedWidthEncoder> constructs for every symbol string and answers as the list *)
+  Theorem fixed_width_tree_correct : exists t,
+    fw_tree text = Ok (t, chars) /\
+    (forall x, x < length text -> pt_access (fw_dec chars) t x = wt_access text x) /\
+    (forall q, In q text -> forall x, x <= length text -> pt_rank_q (fw_enc chars) t q x = wt_rank_q text q x) /\
+    (forall q, In q text -> forall k, pt_select_q (fw_enc chars) t q k = wt_select_q text q k).
+  Proof.
+    destruct (prefix_wt_constructs (fw_enc chars) (fw_dec chars) fw_cf text fw_Henc (S w)) as (t & Et).
+    - intros s Hs E. pose proof (fw_cf_length s Hs) as L. rewrite E in L. cbn in L. pose proof fw_width_pos. lia.
+    - intros c d Hc Hd Hp. apply in_map_iff in Hc, Hd. destruct Hc as (s & <- & Hs). destruct Hd as (s' & <- & Hs').
+      apply is_prefix_same_length; [now rewrite !fw_cf_length|exact Hp].
+    - assert (G : forall l, (forall s, In s l -> In s text) -> max_len (map fw_cf l) <= w).
+      { induction l as [|s l IH]; intros H; [cbn; lia|]. cbn [map max_len fold_right].
+        rewrite (fw_cf_length s (H s (or_introl eq_refl))).
+        specialize (IH (fun s' Hs' => H s' (or_intror Hs'))). unfold max_len in IH. lia. }
+      specialize (G text (fun s H => H)). lia.
+    - exists t. unfold fw_tree. fold chars w. rewrite Et. cbn [rbind]. split; [reflexivity|].
+      exact (prefix_wt_correct (fw_enc chars) (fw_dec chars) fw_cf text fw_Henc (S w) t Et).
+  Qed.
+End FixedWidth.
